@@ -13,7 +13,10 @@ Rec == ndJsonDeserialize(IOEnv.TRACE)
 VARIABLES l, fails
 tvars == <<l, fails>>
 TInit == l = 1 /\ fails = <<>>
-Expected(r) == IF r.match # 0 /\ r.match < r.T THEN [res |-> "delivered", at |-> r.match]
+(* reply = kind of the matching reply: a Report ends the call with SnmpAuthError, an exception value with NoSuchInstance - when it
+   arrives, like any other matching reply *)
+Delivered(r) == IF r.reply = "report" THEN "SnmpAuthError" ELSE IF r.reply = "nosuch" THEN "NoSuchInstance" ELSE "delivered"
+Expected(r) == IF r.match # 0 /\ r.match < r.T THEN [res |-> Delivered(r), at |-> r.match]
                ELSE [res |-> "TimeoutError", at |-> r.T]
 (* signals = TRUE: the process handled signals while the (sync) request was blocked.  What the interrupted call returns is not the
    property's business (the library reports the interruption as OSError at once; retrying is legitimate as well) - only the bound is:
